@@ -255,6 +255,8 @@ def check(model: Model, run: Run) -> None:
             return ev(xl.single(t.id), tgt, wod)
         if isinstance(t, ast.Compare) and len(t.ops) == 1 and dotted(t.left) == tpar:
             op, r = t.ops[0], t.comparators[0]
+            if isinstance(op, (ast.In, ast.NotIn)) and isinstance(r, ast.Name) and isinstance(exa.module.assigns.get(r.id), (ast.Tuple, ast.List, ast.Set)):
+                r = exa.module.assigns[r.id]  # a module-level tuple of states
             if isinstance(op, (ast.In, ast.NotIn)) and isinstance(r, (ast.Tuple, ast.List, ast.Set)):
                 names = [_state_name(e) for e in r.elts]
                 if None in names:
@@ -430,7 +432,17 @@ def check(model: Model, run: Run) -> None:
     each = {dotted(n.targets[0]) for n in walk_no_nested(exa.node) if isinstance(n, ast.Assign) and amatch("', '.join((f'peer {V_n}' for V_n in options.neighbors))", n.value) is not None}
     run.check(bool(star & each), exa.qualname, 'selector prefix: peer <neighbor>[, peer <neighbor>] or peer *', exa.loc(), 'selector syntax')
     # metric / state options
-    mvars = xl.from_value(lambda v: amatch("vars(options).get(f'{V_t.value.lower()}_metric', 0)", v, {'V_t': tpar}) is not None)
+
+    def _xexp(v: ast.AST) -> ast.AST:
+        # the expression with the locals it reads replaced by their definitions (state_name = target.value.lower())
+        if not isinstance(v, ast.Call):
+            return v
+        try:
+            return ast.parse(xl.expand(v), mode='eval').body
+        except SyntaxError:
+            return v
+
+    mvars = xl.from_value(lambda v: amatch("vars(options).get(f'{V_t.value.lower()}_metric', 0)", _xexp(v), {'V_t': tpar}) is not None)
     inc = [n for n in walk_no_nested(exa.node) if isinstance(n, ast.AugAssign) and isinstance(n.op, ast.Add) and dotted(n.target) in mvars and dotted(n.value) == 'options.increase']
     med = False
     for n in walk_no_nested(exa.node):
@@ -453,7 +465,8 @@ def check(model: Model, run: Run) -> None:
             pass
 
         def apval(e: ast.AST, env: dict, P, G):  # noqa: ANN001
-            if amatch("vars(options).get(f'{V_t.value.lower()}_as_path', None)", e, {'V_t': tpar}) is not None or amatch("vars(options).get(f'{V_t.value.lower()}_as_path')", e, {'V_t': tpar}) is not None:
+            ee = _xexp(e)
+            if amatch("vars(options).get(f'{V_t.value.lower()}_as_path', None)", ee, {'V_t': tpar}) is not None or amatch("vars(options).get(f'{V_t.value.lower()}_as_path')", ee, {'V_t': tpar}) is not None:
                 return P
             if dotted(e) == 'options.as_path':
                 return G
